@@ -42,7 +42,7 @@ def handle (cmd : String) (args : List String) : Option String :=
                                             | some i => last.getD i false
                                             | none => false,
                             ignoreErr := pl.map (·.1) }
-      some s!"M ign={b2s (isIgnored conf rx file ty)} special={b2s (isSpecialCheck conf [2, 3, 10, 11, 12])} S shown={b2s (shown s rx file ty)} specialOff={b2s (specialOff s)}"
+      some s!"M ign={b2s (isIgnored conf rx file ty)} special={b2s (isSpecialCheck conf ConfSpec.specialTypes)} S shown={b2s (shown s rx file ty)} specialOff={b2s (specialOff s)}"
   | "confrules", [rules, fileh, ty] =>
     -- `confrules <hexfile:rxbit=t.t.t;…> <filehex> <ty>`: is (file, ty) silenced by the per-file type rules
     -- of luahelper.json (IgnoreFileErrTypes) under the model (`fromJson` + `isIgnored`, everything else on)?
